@@ -1,6 +1,6 @@
 (* Props_C07.v — property C07 (pool = cloud; failed calls leave no orphan) against the pool LTS. *)
 From Coq Require Import ZArith List Bool.
-From TV Require Import PoolModel PoolSets PoolInv PoolThm.
+From TV Require Import PoolModel PoolSets PoolInv PoolThm PoolBal.
 Import ListNotations.
 Local Open Scope Z_scope.
 
@@ -33,6 +33,25 @@ Theorem c07_needy_request_refused_meanwhile : forall s pod nc pin erdma e4 e6,
   alloc_kind s pod nc pin erdma = KEnqueue e4 e6 -> s_inh s <= s_now s.
 Proof. exact enqueue_needs_no_backoff. Qed.
 Print Assumptions c07_needy_request_refused_meanwhile.
+
+(* the watermark band (second sentence), at the level of the balancer's arithmetic (bal_todel / bal_want are the functions
+   the replay compares with Manager.syncPool's disposals and pre-heat requests on every generated pass): with min <= max,
+   once the disposals and pre-heat requests of a pass are carried out the idle reserve is inside the band — or the node is
+   at capacity and only the trim applies; inside the band a pass does nothing; a pass never trims and refills at once.
+   Partial: that every disposal / pre-heat request of a pass IS carried out under a healthy cloud is not proved. *)
+Theorem c07_band_reached_partial : forall idle inuse mn mx tot,
+  0 <= mn <= mx -> 0 <= idle -> idle + inuse + bal_want idle inuse mn tot <= tot ->
+  mn <= bal_after idle inuse mn mx tot <= mx \/ (tot <= idle + inuse /\ bal_after idle inuse mn mx tot = Z.min idle mx).
+Proof. exact band_reached. Qed.
+Print Assumptions c07_band_reached_partial.
+Theorem c07_band_is_fixed : forall idle inuse mn mx tot, 0 <= mn <= mx -> mn <= idle <= mx ->
+  bal_todel idle mx <= 0 /\ bal_want idle inuse mn tot = 0.
+Proof. exact band_fixed. Qed.
+Print Assumptions c07_band_is_fixed.
+Theorem c07_never_trims_and_refills : forall idle inuse mn mx tot, 0 <= mn <= mx ->
+  ~ (0 < bal_todel idle mx /\ 0 < bal_want idle inuse mn tot).
+Proof. exact never_both. Qed.
+Print Assumptions c07_never_trims_and_refills.
 
 (* a failed assign that returns the addresses it did assign leaves them tracked (marked for release) *)
 Example c07_ex :
